@@ -92,7 +92,7 @@ pub fn generate(_cfg: &RunCfg, _out: &mut Outcome) -> Scenario {
         let nowait = reqs.iter().map(|r| eager && r.malformed.is_none() && !r.wants_close() && t::chance(1, 2)).collect();
         conns.push(ConnPlan { reqs, think_ms, send_after_close: t::chance(1, 2), short_reads: t::chance(1, 4), nowait, eager_after_close: t::chance(1, 2) });
     }
-    let chaos = (0..t::weighted(&[3, 2, 1])).map(|_| ChaosPlan { start_ms: t::pick(&[0u64, 0, 1, 30, 2000]), kind: t::draw(6) as u8, err: t::draw(4) as u8, delay_ms: t::pick(&[0u64, 1, 50]) }).collect();
+    let chaos = (0..t::weighted(&[3, 2, 1])).map(|_| ChaosPlan { start_ms: t::pick(&[0u64, 0, 1, 30, 2000]), kind: t::pick(&[0u8, 1, 2, 2, 3, 4, 5]), err: t::draw(4) as u8, delay_ms: t::pick(&[0u64, 1, 50]) }).collect();
     Scenario { conns, chaos }
 }
 
@@ -249,7 +249,10 @@ fn execute(sc: &Scenario, out: &mut Outcome) {
                     c.send_rst(kind, ch.delay_ms * MS);
                 }
                 2 => {
-                    c.send(b"POST /p/chaos HTTP/1.1\r\nHost: x\r\nContent-Length: 2000\r\n\r\nCHAOSCHAOSCHAOS", 0);
+                    // (sometimes gigabytes are announced: what the server books for an upload that never completes must not
+                    // stay booked)
+                    let announced = if ch.delay_ms != 0 { 4_294_967_000u64 } else { 2000 }; // just below the 4 GiB limit
+                    c.send(format!("POST /p/chaos HTTP/1.1\r\nHost: x\r\nContent-Length: {announced}\r\n\r\nCHAOSCHAOSCHAOS").as_bytes(), 0);
                     c.send_rst(kind, ch.delay_ms * MS);
                 }
                 3 => {}
